@@ -468,6 +468,28 @@ fn check_group_status(nb_total: u8, items: &[(u8, u32)], nb_at: u8, kf: &KnownFi
         }
         return Err(fail(format!("McGroupStatusAns: set nb_total {} mask {want_mask:#x} items {want_items:?}; parsed back {:?}", nb_total & 7, parsed.1)));
     }
+    // the same bytes through the checked per-command constructor, as the front of a larger buffer (a
+    // receive buffer, or a payload with more commands behind): the view must be the command itself
+    if !oor {
+        for extra in [0usize, 1, 5, 11] {
+            let mut buf = bytes[1..].to_vec();
+            buf.extend((0..extra).map(|i| 0x01u8.wrapping_add(i as u8 * 3)));
+            let r = catch(|| McGroupStatusAnsPayload::new(&buf).map(|p| {
+                let raw = p.bytes().to_vec();
+                let c = UplinkRemoteSetup::McGroupStatusAns(p);
+                (raw, visit_up_mc(&c).1)
+            }));
+            match r {
+                Err(pm) => return Err(Failure::panic(case, &pm)),
+                Ok(Err(e)) => return Err(fail(format!("McGroupStatusAnsPayload::new refuses the built payload followed by {extra} more bytes: {e:?}"))),
+                Ok(Ok((raw, fields))) => {
+                    if raw != bytes[1..] || fields != parsed.1 {
+                        return Err(Failure::new("roundtrip-field", case, format!("McGroupStatusAnsPayload::new on the built payload followed by {extra} more bytes: view {} fields {fields:?}; the command is {} fields {:?}", hex(&raw), hex(&bytes[1..]), parsed.1)).with_fp("roundtrip-field/McGroupStatusAns.new-from-larger-buffer"));
+                    }
+                }
+            }
+        }
+    }
     Ok(())
 }
 
